@@ -56,7 +56,8 @@ const E0: Entry = Entry { ptr: 0, size: 0, align: 0, state: 0, log_epoch: 0, log
 const L0: LogRec = LogRec { ptr: 0, size: 0, align: 0, alloc_tid: 0, free_tid: 0, spec: 0, mismatch: 0, d_size: 0, d_align: 0 };
 
 struct Book {
-    table: [Entry; TABLE_CAP],
+    tables: [[Entry; TABLE_CAP]; 2],
+    cur: usize,
     log: [LogRec; LOG_CAP],
     log_len: usize,
     epoch: u32,
@@ -101,7 +102,7 @@ impl Book {
     fn find(&self, p: usize) -> Option<usize> {
         let mut s = slot_of(p);
         for _ in 0..TABLE_CAP {
-            let e = &self.table[s];
+            let e = &self.tables[self.cur][s];
             if e.state == 0 {
                 return None;
             }
@@ -127,43 +128,31 @@ impl Book {
             self.log_overflow += 1;
         }
         let new = Entry { ptr: p, size: l.size(), align: l.align() as u32, state: 1, log_epoch: self.epoch, log_idx: idx };
-        // same pointer seen before (tombstone or - allocator defect - still live)?
+        // same pointer seen before in this batch (tombstone or - allocator defect - still live)?
+        let cur = self.cur;
         if let Some(s) = self.find(p) {
-            if self.table[s].state == 1 {
+            if self.tables[cur][s].state == 1 {
                 self.alloc_dup_live += 1;
                 return;
             }
-            self.table[s] = new;
-        } else {
-            let mut s = slot_of(p);
-            let mut placed = false;
-            for _ in 0..TABLE_CAP {
-                if self.table[s].state == 0 {
-                    self.table[s] = new;
-                    placed = true;
-                    break;
-                }
-                s = (s + 1) & (TABLE_CAP - 1);
-            }
-            if !placed {
-                // table full of tombstones: recycle one on the probe path (loses double-free memory for it only)
-                let mut s = slot_of(p);
-                for _ in 0..TABLE_CAP {
-                    if self.table[s].state == 2 {
-                        self.table[s] = new;
-                        placed = true;
-                        break;
-                    }
-                    s = (s + 1) & (TABLE_CAP - 1);
-                }
-            }
-            if !placed {
-                self.table_overflow += 1;
-                return;
-            }
+            self.tables[cur][s] = new;
+        } else if !Self::insert(&mut self.tables[cur], new) {
+            self.table_overflow += 1;
+            return;
         }
         self.live_count += 1;
         self.live_bytes += l.size() as u64;
+    }
+    fn insert(t: &mut [Entry; TABLE_CAP], e: Entry) -> bool {
+        let mut s = slot_of(e.ptr);
+        for _ in 0..TABLE_CAP {
+            if t[s].state == 0 {
+                t[s] = e;
+                return true;
+            }
+            s = (s + 1) & (TABLE_CAP - 1);
+        }
+        false
     }
     /// returns true when the free may be forwarded to the real allocator
     fn on_free(&mut self, p: usize, l: Layout, tid: u32) -> bool {
@@ -173,7 +162,7 @@ impl Book {
                 false
             }
             Some(s) => {
-                let e = self.table[s];
+                let e = self.tables[self.cur][s];
                 if e.state == 2 {
                     self.double_free += 1;
                     return false;
@@ -193,7 +182,8 @@ impl Book {
                 } else if e.log_epoch != self.epoch {
                     self.old_freed += 1;
                 }
-                self.table[s].state = 2;
+                let cur = self.cur;
+                self.tables[cur][s].state = 2;
                 self.live_count -= 1;
                 self.live_bytes -= e.size as u64;
                 true
@@ -211,34 +201,19 @@ impl Book {
         self.table_overflow = 0;
         self.old_freed = 0;
         self.null_allocs = 0;
-        // tombstones are only needed within a batch: clear them so that probing stays short
-        let mut live = [E0; 0];
-        let _ = &mut live;
-        let mut keep: usize = 0;
+        // tombstones (memory of freed pointers, to tell a double free from a wild free) are only needed within a
+        // batch: rebuild the table with the live entries only. Runs with the lock held, between batches.
+        let (cur, other) = (self.cur, 1 - self.cur);
         for i in 0..TABLE_CAP {
-            if self.table[i].state == 2 {
-                keep += 1;
+            self.tables[other][i] = E0;
+        }
+        for i in 0..TABLE_CAP {
+            let e = self.tables[cur][i];
+            if e.state == 1 && !Self::insert(&mut self.tables[other], e) {
+                self.table_overflow += 1;
             }
         }
-        if keep > TABLE_CAP / 4 {
-            self.rehash();
-        }
-    }
-    fn rehash(&mut self) {
-        // in-place rebuild without allocation: pull live entries out one at a time through the log-free path
-        // (TABLE_CAP is small: quadratic worst case is irrelevant, it runs between batches only)
-        for i in 0..TABLE_CAP {
-            if self.table[i].state == 2 {
-                self.table[i].state = 3; // "deleted, reusable" marker handled as tombstone for probing
-            }
-        }
-        // state 3 behaves like 2 for `find` (non-empty, ptr compared) but may be recycled at once
-        for i in 0..TABLE_CAP {
-            if self.table[i].state == 3 {
-                self.table[i].ptr = 1; // never equal to a real pointer
-                self.table[i].state = 2;
-            }
-        }
+        self.cur = other;
     }
 }
 
@@ -263,7 +238,8 @@ unsafe impl GlobalAlloc for Counting {
 static A: Counting = Counting {
     m: Mutex::new(Shared { dl: Dlmalloc::new() }),
     book: UnsafeCell::new(Book {
-        table: [E0; TABLE_CAP],
+        tables: [[E0; TABLE_CAP]; 2],
+        cur: 0,
         log: [L0; LOG_CAP],
         log_len: 0,
         epoch: 0,
